@@ -491,6 +491,22 @@ def correspondence(ctx):
                 'non-trivial = the assertion fired.' % n)
 
 
+def hostile_operands(ctx):
+    """results of student calls whose own __repr__ / __str__ / __eq__ / __bool__ / __len__ fail: every assertion still answers with a
+    feedback object (the failing method is the student's, the report is the grader's)"""
+    res = vlib.run_impl('c07_impl.py', {'hostile': True}, timeout=600)
+    for r in res['hostile']:
+        ctx.case(('hostile', r['kind'], r['assertion'], r['shape']), nontrivial=bool(r.get('fired')))
+        ctx.count('hostile-operand:' + r['kind'])
+        if 'raised' in r:
+            ctx.violation('assertion-raises-on-hostile-operand:%s' % r['kind'],
+                          {'operand': r['kind'], 'assertion': r['assertion'], 'shape': r['shape'],
+                           'why': '%s on the result of a student call whose %s fails (%s) raised %s into the grader'
+                                  % (r['assertion'], r['kind'], r['shape'], r['raised'])})
+        elif r['fired'] != r['listed'] or (not r['fired']) != r['ignored']:
+            ctx.violation('truth-vs-report:%s' % r['assertion'], {'case': r, 'why': 'bool(assertion) and its place in the report differ'})
+
+
 # ---------------------------------------------------------------- equality_test: Coq model vs the implementation
 EQ_HEADER = ('From Coq Require Import ZArith QArith List Bool.\nImport ListNotations.\n'
              'From Pedal Require Import model.C07_Equality.\n'
@@ -631,4 +647,5 @@ def run(ctx):  # noqa: F811
     translate(ctx)
     ctx.coq_props()
     correspondence(ctx)
+    hostile_operands(ctx)
     equality_correspondence(ctx)
